@@ -188,6 +188,8 @@ MCScenTab0 == LET rs == RawScens IN
 MCScenTab == MCScenTab0
 MCInit == \E s \in {i \in 1..Len(ScenTab) : Mine(i)} : InitFor(s)
 
+LiveSpec == MCInit /\ [][Next]_vars /\ (\A t \in 1..3 : WF_vars(Step(t))) /\ WF_vars(Finish)
+
 \* edge printer: one schedule per generated successor; a successor in which the
 \* monitor records a new violation is also printed as a model-level
 \* counter-example ("MV"), to be replayed on the real code before it is believed
